@@ -211,7 +211,8 @@ fn con_functions() -> Vec<Option<FnRep>> {
 }
 
 pub fn run(ctx: &Ctx) -> Finish {
-    let t = ctx.tier == Tier::Thorough;
+    // the full product takes under 10 s, so both tiers run it
+    let t = true;
     let objs = objectives();
     let cfs = con_functions();
     let pool: Vec<(i32, Option<FnRep>)> = cfs.iter().flat_map(|f| [(EQ_ZERO, f.clone()), (LE_ZERO, f.clone())]).collect();
